@@ -122,6 +122,7 @@ def build(tier):
     num_vcs, num_bounded, num_info = numerics.build(tier)
     return {
         'targets': targets, 'vcs': num_vcs, 'bounded': [lemma.target()] + num_bounded, 'functions': num_info,
+        'undecided': list(numerics.build.undecided),
         'decided': ['bundle_t representation invariant 0 < m_size < capacity() after append / moveto (and from m_size >= 0, as the constructor uses append); every index written into m_bundleE / m_bundleS / m_alphas lies in [0, capacity()); delete_largest reads m_alphas inside [0, size()) and a full bundle loses at least `count` entries',
                     'bundle_t constructor: capacity() = max_size + 1 >= 3 slots in all three buffers (the shape NV_BUNDLE_SHAPE every other contract assumes), centre copied from the state, invariant established by the first append',
                     'econverged / sconverged: smeared_e <= epsilon * sqrt(dimension of x), |smeared_s|_2 <= epsilon * sqrt(dimension of x) (the formula of the property; sqrt uninterpreted)',
